@@ -534,6 +534,8 @@ static text_block_line_t* edn_parse_text_block_line(edn_parser_t* parser) {
 }
 
 edn_value_t* edn_parse_text_block(edn_parser_t* parser) {
+    const char* value_start = parser->current;
+
     /* Skip opening delimiter (""") and mandatory newline character */
     parser->current += 4;
 
@@ -749,6 +751,8 @@ edn_value_t* edn_parse_text_block(edn_parser_t* parser) {
     edn_string_set_has_escapes(value, any_escapes);
     value->as.string.decoded = result; /* Text blocks are already decoded */
     value->arena = parser->arena;
+    value->source_start = value_start - parser->input;
+    value->source_end = parser->current - parser->input;
 
     return value;
 }
